@@ -72,11 +72,16 @@ PROPS = {
                 text="For tape-generated start-up histories (plain / iat-mode override / explicit identity) the next start is interrupted at EVERY disk step (kill, EIO, ENOSPC; for write steps with torn sizes 0, 1, len/2, len-1, len and a sampled one), then a plain start must succeed and present the durable identity (or the one the interrupted start was given); identity compared through Args(), the reference's reading of the advertised cert, client ParseArgs of both bridge-line forms and obfs4_bridgeline.txt.",
                 note="Kill model: completed disk steps persist, the step in progress persists a prefix (no loss of completed-but-unsynced writes). Trusted: simulator, simos disk model, the weave import shim (os -> simos in statefile.go and handshake_ticket.go).",
                 technique=TECH + "crash/error enumeration over every disk step of generated start-up histories with an identity-persistence model"),
+    "C19": dict(engine="relay", quick=30, thorough=600, level="exploration", design="DESIGN.md section 4, C19",
+                text="The real copyLoop between two simulated connections whose far ends are scripted producer/consumer tasks (chunk sizes 1..40000, pauses, slow readers, send buffers down to 100 bytes, latencies, all chunkings) ending by half-close, close, reset or not at all; oracle: received bytes are a prefix of what the opposite side produced, a side that ends first while the other is healthy has everything forwarded, both conns closed and copyLoop returned within 10 virtual minutes. The real termMonitor (built from its fields, runtime select order under the seeded seam) with 0-4 handler tasks, SIGINT at a chosen time, optional SIGTERM, late handlers; oracle: wait(true) returns exactly when no handler is active, including when none ever was.",
+                note="Harness files are injected into package main through the build overlay; signal.Notify, stdin/ppid watchers and main()'s flag handling are not run. Trusted: simulator, runtime select seam (inert unless armed).",
+                technique=TECH + "scripted far ends with EOF/RST/close faults and seeded scheduling; handler/signal histories against a handler-count model"),
 }
 
 ENGINES = {
     # name -> dict(src: dir under harness/, pkg: (virtual) package dir inside the repo module, weave: file specs for /verif/weave)
     "wire": dict(src="wire", pkg="zz_verif/wire"),
+    "relay": dict(src="relay", pkg="obfs4proxy"),
     "disk": dict(src="disk", pkg="zz_verif/disk", weave=[
         dict(path="transports/obfs4/statefile.go", os=True),
         dict(path="transports/scramblesuit/handshake_ticket.go", os=True),
@@ -362,8 +367,9 @@ def replay_file(path, quiet=False):
 def selftest(props, seeds=40, reps=3):
     """Determinism: identical (seed, run) must give identical event logs across
     processes and GOMAXPROCS values."""
-    bad = 0
+    total_bad = 0
     for prop in props:
+        bad = 0
         cfg = PROPS[prop]
         binary, _ = build_engine(cfg["engine"])
         bd = repo_build_dir()
@@ -390,7 +396,8 @@ def selftest(props, seeds=40, reps=3):
             os.remove(out)
         shutil.rmtree(os.path.join(bd, "selftest-replays"), ignore_errors=True)
         print("selftest %s: %d processes x %d runs, %s" % (prop, len(procs), seeds, "IDENTICAL" if bad == 0 else "DIFFER"))
-    return 2 if bad else 0
+        total_bad += bad
+    return 2 if total_bad else 0
 
 
 COMMON_ASSUMPTIONS = [
@@ -413,6 +420,7 @@ NOT_APPLICABLE = {
     "C20": "Log scrubbing is a pure function of an error value or address string; nothing in it depends on scheduling, time, I/O or faults.",
 }
 ENGINE_KIND = {
+    "relay": "B1 with in-package injection: harness test files are overlaid into package main of obfs4proxy so copyLoop and termMonitor run unmodified; runtime select order comes from the seeded seam",
     "disk": "B2 (import shim only): statefile.go and handshake_ticket.go compiled with os -> verifsim/simos (in-memory disk with kill/torn-write/EIO/ENOSPC injection at every step); everything else as B1",
     "wire": "B1: unmodified repository packages inside a testing/synctest bubble on the simulated network/clock/entropy; park-release scheduler driven by a seeded choice tape",
 }
